@@ -265,9 +265,9 @@ def tasks_for(pid, tier):
     if pid == "C14":
         allv = variants("io")
         if q:
-            return ds("io", 4, allv, jobs=2)
+            return ds("io", 4, allv, jobs=5)
         full = [0, 5, 11, 47, 48, 52, 60, 64, 68, 73, 76, 78, 79]
-        return ds("io", 6, allv, jobs=2) + ds("io", 1, full, mode="db", jobs=8, env={"VX_IO_FULL": 1})
+        return ds("io", 6, allv, jobs=5) + ds("io", 1, full, mode="db", jobs=8, env={"VX_IO_FULL": 1})
     if pid == "C16":
         allv = list(range(0, 28))
         small = [0, 1, 2, 3, 5, 6, 7, 13, 14, 15, 20, 21, 22, 27]
